@@ -487,7 +487,7 @@ def _check(prop, cfg, tier, seed, scratch, t0):
                 elif f.get("safety"):
                     # arithmetic overflow / bounds: a panic -- totality (C03) where the function
                     # serves it, otherwise every property the function serves
-                    props_it = it.get("props") or []
+                    props_it = it.get("props") or [q for q, c in CFG.PROPS.items() if an["unit"] in c.get("units", [])]
                     mine = (prop == "C03") if "C03" in props_it else tagged(it, prop)
                 elif precise:
                     # an untagged invariant / hint / callee precondition failing next to a
